@@ -38,7 +38,7 @@ var scopeNames = []string{"route", "no-route", "no-method", "redirect", "options
 
 // Config is one middleware configuration.
 type Config struct {
-	Globals  []int `json:"globals"`   // scope masks, registration order (mask 255 = WithMiddleware i.e. all handlers)
+	Globals  []int `json:"globals"`   // scope masks, registration order (mask 255 = WithMiddleware i.e. all handlers; 511 = WithMiddlewareFor with all eight bits)
 	Default  bool  `json:"default"`   // DefaultOptions() present ...
 	DefPos   int   `json:"def_pos"`   // ... after DefPos global middleware options (0 = first)
 	RouteMws int   `json:"route_mws"` // number of route-specific middleware on route A (0..2)
@@ -243,7 +243,17 @@ func evalConfig(cfg Config) (class, msg string) {
 }
 
 func configs(quick bool) []Config {
-	masks8 := []int{int(fox.RouteHandler), int(fox.NoRouteHandler), int(fox.NoMethodHandler), int(fox.RedirectHandler), int(fox.OptionsHandler), 255, int(fox.RouteHandler | fox.NoRouteHandler), 0}
+	// HandlerScope is a byte of which five bits are defined: masks carrying the three spare bits are arbitrary
+	// masks too (511 stands for WithMiddlewareFor(HandlerScope(255)), 255 alone for WithMiddleware)
+	masks8 := []int{int(fox.RouteHandler), int(fox.NoRouteHandler), int(fox.NoMethodHandler), int(fox.RedirectHandler), int(fox.OptionsHandler), 255, int(fox.RouteHandler | fox.NoRouteHandler), 0,
+		511, int(fox.RouteHandler) | 1, int(fox.RouteHandler|fox.OptionsHandler) | 6, 7, int(fox.NoRouteHandler) | 4}
+	var masks256 []int
+	for m := 0; m < 256; m++ {
+		if m == 255 {
+			m = 511
+		}
+		masks256 = append(masks256, m)
+	}
 	var masks32 []int
 	for m := 0; m < 32; m++ {
 		masks32 = append(masks32, m<<3)
@@ -267,6 +277,7 @@ func configs(quick bool) []Config {
 	} else {
 		rec(nil, masks8, 3)
 		rec(nil, masks32, 2)
+		rec(nil, masks256, 1)
 		lists = append(lists, []int{255, 255, 255, 255, 255}, []int{255, int(fox.RouteHandler), 255, int(fox.RouteHandler), 255, 255, 255})
 	}
 	var out []Config
